@@ -98,11 +98,15 @@ func runC05(tier string) int {
 	r.HangLimit = 90 * time.Second // one case is one small program: a compilation that takes this long hangs
 	plans, swN := enginePlans(tier)
 	isChunk := func(s string) bool { return chunkLabelRe.MatchString(s) }
+	var base comp.Opts // options other than -optimize (a command config for the AutoVar programs); set before a batch, read-only inside it
 	evalProgram := func(w int, p engineProgram) {
+		base := base
 		scripts := []*model.Script{p.Script}
 		src := model.Print(scripts)
-		ro := comp.Compile(src, comp.Opts{Optimize: true})
-		rn := comp.Compile(src, comp.Opts{Optimize: false})
+		bo, bn := base, base
+		bo.Optimize, bn.Optimize = true, false
+		ro := comp.Compile(src, bo)
+		rn := comp.Compile(src, bn)
 		if ro.Panic != "" || rn.Panic != "" {
 			r.Report(harness.Violation{Sig: "C05:panic", Summary: "compiler panic on " + src, Replay: map[string]interface{}{"source": src}})
 			return
@@ -123,8 +127,8 @@ func runC05(tier string) int {
 			r.Report(harness.Violation{Sig: sig, Summary: fmt.Sprintf("%s: %s\n  source: %q", p.Desc, what, src),
 				Replay: map[string]interface{}{"desc": p.Desc, "source": src, "optimized": ro.Out, "unoptimized": rn.Out, "problem": what},
 				Recheck: func() bool {
-					a := comp.Compile(src, comp.Opts{Optimize: true})
-					b := comp.Compile(src, comp.Opts{Optimize: false})
+					a := comp.Compile(src, bo)
+					b := comp.Compile(src, bn)
 					return a.Out == ro.Out && b.Out == rn.Out
 				}})
 		}
@@ -252,6 +256,15 @@ func runC05(tier string) int {
 	if !decoDone {
 		r.NotExhaustive("decorated conditions not completed")
 	}
+	// the control-flow shapes whose conditions and switch operands are AutoVar commands (C01's family, with the command config):
+	// an AutoVar command is a command - it occurs in both forms
+	base = comp.Opts{Cmd: autoCfg}
+	avs := c01AutoVarPrograms()
+	if !r.Parallel(uint64(len(avs)), func(w int, i uint64) { evalProgram(w, avs[i]) }) {
+		r.NotExhaustive("AutoVar programs not completed")
+	}
+	r.Set("autovar_programs", len(avs))
+	base = comp.Opts{}
 	// Files with hoisted data and several statement kinds: same hoisted data and user-visible labels in both forms.
 	anyChunk := regexp.MustCompile(`^[A-Za-z0-9_]+_[0-9]+$`)
 	evalFile := func(fp *fileProgram) {
